@@ -832,8 +832,10 @@ impl Function for ToNumberFn {
         match *args[0] {
             Variable::Number(_) => Ok(args[0].clone()),
             Variable::String(ref s) => match Variable::from_json(s) {
-                Ok(f) => Ok(Rcvar::new(f)),
-                Err(_) => Ok(Rcvar::new(Variable::Null)),
+                // Only a string that holds a JSON number converts; "true", "[1]"
+                // or "\"1\"" are valid JSON but not numbers.
+                Ok(f) if f.is_number() => Ok(Rcvar::new(f)),
+                _ => Ok(Rcvar::new(Variable::Null)),
             },
             _ => Ok(Rcvar::new(Variable::Null)),
         }
